@@ -13,7 +13,7 @@ def run(tier, seed, work, replay):
         "C18", tier, seed, work, "KMWeb", ["MC_KMWeb_C18.cfg"], "Gen_KMWeb", "Gen_KMWeb_C18.cfg",
         "Trace_KMWeb", "Trace_KMWeb.cfg", sig,
         lambda e: (e["case"]["sink"], tuple(e["case"]["payload"])) if e["out"]["rendered"] else None)
-    res.cov["rule"] = ("18 request-controlled sinks x canary payloads over 11 markup atoms (length 1-2), TLC-enumerated; every "
+    res.cov["rule"] = ("19 request-controlled sinks x canary payloads over 11 markup atoms (length 1-2), TLC-enumerated; every "
                        "page is parsed with the HTML5 tokenizer; non-trivial = the canary surfaced in the page")
     res.cov["pages_with_canary"] = sum(e["out"]["rendered"] for e in evs)
     res.cov["sinks_reached"] = sorted({e["case"]["sink"] for e in evs if e["out"]["rendered"]})
@@ -22,7 +22,7 @@ def run(tier, seed, work, replay):
     # the code, went quiet)
     import engine as E
     must = {"login_dest_2fapage", "login_dest_loginpage", "logout_user", "oidc_authorize_unauth", "profile_path_user",
-            "redirect_bodies", "session_user_pages", "profile_path_user_readonly", "showtoken_unauth", "token_name_profile", "totp_name_profile",
+            "redirect_bodies", "session_user_pages", "profile_path_user_readonly", "showtoken_unauth", "token_name_profile", "totp_name_profile", "token_attestation_profile",
             "users_page_names"}
     quiet = sorted(must - set(res.cov["sinks_reached"]))
     if quiet and not res.violations:
